@@ -305,6 +305,138 @@ def work_same(chunk):
     return [judge_same(c) for c in chunk]
 
 
+# ------------------------------------------------------------------ several DIM statements
+MD_ITEMS = [("A$", None), ("N", 4), ("B$", None), ("M$", 2)]
+
+
+def multi_dim_cases():
+    """every split of the DIM items over 1..4 consecutive DIM statements x item order x layout x storage x size map x init"""
+    out = []
+    for order in (MD_ITEMS, list(reversed(MD_ITEMS))):
+        n = len(order)
+        for cuts in itertools.product([False, True], repeat=n - 1):
+            groups, cur = [], [order[0]]
+            for i, c in enumerate(cuts):
+                if c:
+                    groups.append(cur)
+                    cur = []
+                cur.append(order[i + 1])
+            groups.append(cur)
+            dims = ["DIM " + ",".join(nm + (f"({b})" if b is not None else "") for nm, b in g) for g in groups]
+            for layout in ("lines", "colon", "spread"):
+                use = 'A$="HELLO":B$=A$+"!":N(1)=2:M$(1)=B$:PRINT A$;B$;C$;N(1);M$(1)'
+                if layout == "lines":
+                    body = dims + [use]
+                elif layout == "colon":
+                    body = [":".join(dims), use]
+                else:
+                    body = []
+                    for d in dims:
+                        body += [d, 'C$=C$+"x"']
+                    body.append(use)
+                text = "".join(f"{10 * (i + 1)} {b}\n" for i, b in enumerate(body))
+                for storage in (32, 80):
+                    for cfg in ({}, {"A$": 100}, {"B$": 100, "M$()": 120, "C$": 200, "N$()": 90}):
+                        for init in (False, True):
+                            out.append({"text": text, "storage": storage, "cfg": cfg, "init": init, "groups": len(groups), "layout": layout})
+    return out
+
+
+def judge_multi(c):
+    m = tool.mods()
+    cc = m["configs"].CompilerConfigs(string_configs=m["configs"].StringConfigs(strname_to_size=c["cfg"])) if c["cfg"] else None
+    r = tool.convert(c["text"], default_str_storage=c["storage"], initialize_vars=c["init"], compiler_configs=cc)
+    if not r.ok:
+        return [("refused", r.kind)] if not r.refused else []
+    try:
+        procs = S.parse(r.text)
+    except S.B09SyntaxError:
+        return []
+    decls, uses = declarations(procs)
+    v = []
+    seen = {}
+    for nm, dims, typ, order in decls:
+        if nm.lower() in seen:
+            v.append(("declared-twice", f"{nm} is declared more than once ({seen[nm.lower()][1]} and {typ})"))
+        else:
+            seen[nm.lower()] = (dims, typ, order)
+    for nm, want in (("arr_n", (5,)), ("arr_m$", (3,))):
+        if nm not in seen:
+            v.append(("array-undeclared", f"{nm} never declared"))
+        elif seen[nm][0] != want:
+            v.append(("array-dimensions", f"{nm} declared {seen[nm][0]}, expected {want}"))
+    first_use = {}
+    for nm, ns, order in uses:
+        first_use.setdefault(nm.lower(), order)
+    for nm in ("arr_n", "arr_m$"):
+        if nm in seen and nm in first_use and seen[nm][2] > first_use[nm]:
+            v.append(("array-declared-after-use", f"{nm} is declared after its first use"))
+    if c["storage"] != 32:
+        want = {"a$": c["cfg"].get("A$", c["storage"]), "b$": c["cfg"].get("B$", c["storage"]), "c$": c["storage"], "arr_m$": c["cfg"].get("M$()", c["storage"])}
+        for nm, w in want.items():
+            d = seen.get(nm)
+            if d is None:
+                v.append(("string-undeclared", f"string {nm} has no declaration (default size {c['storage']})"))
+            elif d[1] is None or d[1][0] != "STRING" or d[1][1] != w:
+                v.append(("string-size", f"string {nm} declared as {d[1]}, expected STRING[{w}]"))
+    return v
+
+
+def work_multi(chunk):
+    return [judge_multi(c) for c in chunk]
+
+
+# ------------------------------------------------------------------ string sizes inside the bundled procedures
+LIB_PROGRAMS = ['10 HDRAW "U1"\n', '10 PLAY "C"\n', '10 A$=STRING$(2,"X")\n', '10 A=INSTR(1,"AB","B")\n', '10 A$="T4C":PLAY A$:HDRAW A$:PRINT STRING$(3,A$);INSTR(1,A$,"C")\n']
+
+
+def library_placeholders():
+    """{procedure name: [variable names declared with the string-size placeholder]} read from the live ecb.b09"""
+    import os
+    text = open(os.path.join(core.REPO, "coco", "resources", "ecb.b09"), encoding="latin-1").read()
+    out = {}
+    cur = None
+    for ln in re.split(r"\r\n|\r|\n", text):
+        m = re.match(r"(?i)\s*procedure\s+(\S+)", ln)
+        if m:
+            cur = m.group(1).lower()
+            continue
+        m = re.match(r"(?i)\s*(param|dim)\s+([^:]+):\s*STRING<<>>", ln)
+        if m and cur:
+            out.setdefault(cur, []).extend(x.strip().lower() for x in m.group(2).split(","))
+    return out
+
+
+def judge_library(text, storage):
+    r = tool.convert(text, default_str_storage=storage, output_dependencies=True, procname="p")
+    if not r.ok:
+        return []
+    v = []
+    if "<<>>" in r.text:
+        ln = [x for x in re.split(r"\r\n|\r|\n", r.text) if "<<>>" in x][0]
+        v.append(("placeholder-survives", f"the bundle still contains a string-size placeholder: {ln.strip()!r}"))
+    try:
+        procs = S.parse(re.sub(r"(?i)STRING<<>>", "STRING", r.text))
+    except S.B09SyntaxError:
+        return v
+    want = library_placeholders()
+    for p in procs:
+        names = want.get(p.name.lower())
+        if not names:
+            continue
+        found = {}
+        for st in S.walk(p.body):
+            if st.kind in ("dim", "param"):
+                for grp, typ in st.a["groups"]:
+                    for nm, dims in grp:
+                        found[nm.lower()] = typ
+        for nm in names:
+            typ = found.get(nm)
+            if typ is None or typ[0] != "STRING" or (typ[1] or 32) != storage:
+                v.append(("library-string-size", f"{p.name}: {nm} is declared {typ}, the library asks for the requested size STRING[{storage}]"))
+    return v
+
+
 def run(run):
     run.rule = ("programs = position x kind x (DIMmed with 1-3 constant/hex bounds | not) x storage {32,80} x size map x initialize_vars, one variable under test each; "
                 "distinct = distinct abstract cases; non-trivial = accepted and parsed")
@@ -334,6 +466,27 @@ def run(run):
             n += 1
             for sym, detail in verdicts:
                 run.violation(sym, {"same-name", "dim:%s" % c["dim"], "cfg:" + c["cfg"], "storage:%d" % c["storage"]}, dict(c, same=True), f"same-name dim={c['dim']} storage={c['storage']} cfg={c['cfg']} init={c['init']}: {detail}\nsource: {c['text']!r}")
+    multi = multi_dim_cases()
+    run.states += len(multi)
+    run.transitions += len(multi)
+    j = 0
+    for res in core.pmap(work_multi, multi, chunk=50):
+        for verdicts in res:
+            c = multi[j]
+            j += 1
+            run.evaluations += 1
+            n += 1
+            for sym, detail in verdicts:
+                run.violation(sym, {"multi-dim", "dim-statements:%d" % c["groups"], "layout:" + c["layout"], "storage:%d" % c["storage"]}, dict(c, multi=True),
+                              f"several DIM statements ({c['groups']}, {c['layout']}) storage={c['storage']} cfg={c['cfg']} init={c['init']}: {detail}\nsource: {c['text']!r}")
+    for text in LIB_PROGRAMS:
+        for storage in (32, 80, 255):
+            run.evaluations += 1
+            run.states += 1
+            run.transitions += 1
+            n += 1
+            for sym, detail in judge_library(text, storage):
+                run.violation(sym, {"library", "storage:%d" % storage}, {"library": True, "text": text, "storage": storage}, f"bundled procedures, storage={storage}: {detail}\nsource: {text!r}")
     for name, text, opts, fl in EXTRA:
         for init in (False, True):
             o = dict(opts)
@@ -347,6 +500,10 @@ def run(run):
 
 
 def replay(case):
+    if case.get("multi"):
+        return {"violations": [list(x) for x in judge_multi(case)]}
+    if case.get("library"):
+        return {"violations": [list(x) for x in judge_library(case["text"], case["storage"])]}
     if case.get("same"):
         return {"violations": [list(x) for x in judge_same(case)]}
     if "extra" in case:
